@@ -30,6 +30,9 @@ fn install_panic_hook() {
                 format!("{}:{}", f, l.line())
             })
             .unwrap_or_else(|| "?".into());
+        if std::env::var("AXH_DEBUG").is_ok() {
+            eprintln!("panic: {}", info);
+        }
         LAST_PANIC.with(|p| *p.borrow_mut() = Some(loc));
     }));
 }
